@@ -166,6 +166,14 @@ def stagePost (a : CeremonyArgs) (skr : Option Response) (newSkr : Response) : R
   | none => pure ()
   | some last => checkLastSkrAndNewSkr last newSkr a.requestPolicy
 
+/-- `skr_to_xml(skr)` is computed BEFORE the output file is opened; it refuses (NotImplementedError)
+    an SKR with a timestamp or with a non-RSA entry in either algorithm policy. -/
+def skrSerialisable (r : Response) : Res Unit :=
+  if r.timestamp.isSome then err .notImplemented
+  else if (r.kskPolicy.algorithms ++ r.zskPolicy.algorithms).any (fun a => a.kind != .rsa) then
+    err .notImplemented
+  else pure ()
+
 def signerConfigOf (a : CeremonyArgs) (actions : List (Nat × SchemaAction)) : SignerConfig :=
   { kskKeys := a.kskKeys, kskPolicy := a.kskPolicy, responsePolicy := a.responsePolicy, actions }
 
@@ -191,6 +199,7 @@ def ksrsignerCore (ext : Externals) (a : CeremonyArgs) : CerM (Option Response) 
         if !go then pure none else do
           let newSkr ← CerM.liftTok (createSkr ext mods (signerConfigOf a actions) req)
           CerM.lift (stagePost a skr newSkr)
+          CerM.lift (skrSerialisable newSkr)
           pure (some newSkr)
 
 /-- `ksrsigner(logger, args, config)`: `ok true` = returned True (success), `ok false` = returned
@@ -201,6 +210,13 @@ def ksrsigner (ext : Externals) (a : CeremonyArgs) : CerM Bool := do
   | some newSkr => do
     CerM.emit (.write newSkr)
     pure true
+
+/-- `_previous_skr_filename` / `_ksr_filename` / `_skr_filename`: a (non-empty) command-line value
+    takes precedence over the configured file name. -/
+def pickFile (cli cfg : Option String) : Option String :=
+  match cli with
+  | some f => if f.isEmpty then cfg else some f
+  | none => cfg
 
 /-- `main()`: success 0, returned False 3 ("fatal"), ConfigurationError 2, KeyboardInterrupt 1;
     any other exception leaves `main` uncaught: the interpreter exits with status 1. -/
